@@ -286,3 +286,19 @@ Fixpoint render_tree (kw : string) (t : stree) : sel :=
       end
   end.
 Definition render_forest (kw : string) (F : forest) : sdict := map (fun kt => (fst kt, render_tree kw (snd kt))) F.
+
+(* ---------- what the annotation helpers are for ---------- *)
+(* a field can hold a dataclass member: its annotation is one, is a list/tuple of them, or is a Union with such an arm *)
+Fixpoint spec_holds_dc (t : ann) : bool :=
+  match t with
+  | ADc | ATypeVarDc | AListDc => true
+  | AUnion l => existsb spec_holds_dc l
+  | _ => false
+  end.
+(* None is an allowed value: Union[..., None] / Literal[..., None] *)
+Definition spec_optional (t : ann) : bool :=
+  match t with
+  | AUnion l => existsb p_is_nonetype l
+  | ALiteral b => b
+  | _ => false
+  end.
